@@ -31,11 +31,14 @@ Audit extensions (strata on top of the enumeration above):
     policies   a queue policy raises (before the split, or on the k-th envelope after it)
     relay      the Queue has a relay (attempts are spawned from enqueue), bounded or unbounded relay pool
     proxy      relay policies that raise, gevent.Timeout, non-dict Mapping / tuple results, every failing subset
+    rcpt-2xx   a validator answers RCPT with 251 / 252 / a multi-line 250 / 250 with other text, alone and mixed
+               with plain 250: every recipient answered 2xx at RCPT is an accepted recipient
     wire       the real-socket transports run in the quick tier too; a failure must be answered 4xx/5xx
 """
 import io
 import re
 import json
+import itertools
 import struct
 import base64
 import random
@@ -129,7 +132,7 @@ REQUIRED_HITS = ['reply-emission-hook', '2xx-with-full-custody', 'failed-write-r
                  'proxy-non-dict-container-judged', 'proxy-relay-policy-failure-refused',
                  'session-second-message-judged', 'session-second-message-failed-write-refused',
                  'pipelined-eod-reply-judged', 'rejected-rcpt-message-judged',
-                 'http-second-request-judged']
+                 'http-second-request-judged', 'rcpt-answered-other-2xx-judged']
 SHARDS = {'quick': 8, 'thorough': 16}
 BUDGET = {'quick': 60, 'thorough': 600}
 EXHAUSTIVE = {'quick': True, 'thorough': True}
@@ -153,6 +156,7 @@ FEEDS = {'smtp-script': ['step', 'pipe-cmds', 'pipe-tail', 'pipe-all'],
          'wsgi-server': ['step', 'pipe-all']}
 SESSION_CHAINS = ['split', 'domsplit+split', 'forward+split']
 SESSION_POOLS = [None, 1]
+RCPT_KINDS = ['250', '251', '252', '250ml', '250txt']
 
 
 # ---------------------------------------------------------------- workload
@@ -215,6 +219,11 @@ def relay_results(n):
         yield {'form': form, 'what': 'all-ok', 'fail': {}}
         for what, fail in fail_subsets(n):
             yield {'form': form, 'what': what, 'fail': fail}
+
+
+def rcpt_kind_vectors(nmax):
+    """Every assignment of an RCPT answer kind to 1..nmax recipients."""
+    return [v for n in range(1, nmax + 1) for v in itertools.product(RCPT_KINDS, repeat=n)]
 
 
 def first_messages_queue():
@@ -300,6 +309,18 @@ def all_cases(tier, seed):
                                     yield {'transport': transport, 'queue': 'session', 'qkind': 'queue',
                                            'feed': feed, 'chain': chain, 'pool': pool, 'yields': 0,
                                            'msgs': [dict(m1), m2], 'tag': tag}
+            if smtp and feed in ('step', 'pipe-cmds'):
+                # --- RCPT answered with a 2xx other than the plain 250 (alone / mixed with plain 250)
+                for kinds in rcpt_kind_vectors(3 if full else 2):
+                    if all(k == '250' for k in kinds):
+                        continue
+                    for chain in ('none', 'split'):
+                        nprod = n_produced(chain, kinds)
+                        for f in ({}, {str(nprod): 'qerr552'}):
+                            yield {'transport': transport, 'queue': 'session', 'qkind': 'queue', 'feed': feed,
+                                   'chain': chain, 'pool': None, 'yields': 0,
+                                   'msgs': [{'layout': list(range(len(kinds))), 'faults': f,
+                                             'rcpt_kinds': list(kinds)}], 'tag': tag}
             for m1 in (first_messages_proxy() if full else first_messages_proxy()[1::2]):
                 for n in range(1, 4):
                     for res in relay_results(n):
@@ -569,6 +590,20 @@ class RejectingValidators(SmtpValidators):
             reply.message = '5.1.1 injected: no such user here'
 
 
+class RcptCodeValidators(SmtpValidators):
+    """Answers RCPT as the local part asks: k251..., k252..., k250ml... (two lines), k250txt... (other text)."""
+
+    def handle_rcpt(self, reply, recipient, params):
+        if recipient.startswith('k251'):
+            reply.code, reply.message = '251', '2.1.5 User not local; will forward to <elsewhere@other.test>'
+        elif recipient.startswith('k252'):
+            reply.code, reply.message = '252', '2.1.5 Cannot verify the user, but will take the message'
+        elif recipient.startswith('k250ml'):
+            reply.message = '2.1.5 Recipient ok\r\n2.1.5 mailbox is almost full'
+        elif recipient.startswith('k250txt'):
+            reply.message = '2.1.5 fine by me'
+
+
 # ---------------------------------------------------------------- one laboratory per case
 
 FWD_PATTERN, FWD_REPL = r'@d0\.test$', '@moved.test'
@@ -582,12 +617,16 @@ class Msg(object):
         self.idx = idx
         pre = ('m%d' % idx) if session else ''
         if kind == 'queue':
-            self.rcpts = ['%sr%d@d%d.test' % (pre, i, d) for i, d in enumerate(spec['layout'])]
+            kinds = spec.get('rcpt_kinds') or [''] * len(spec['layout'])
+            self.rcpts = ['%s%sr%d@d%d.test' % ('k' + k if k else '', pre, i, d)
+                          for k, (i, d) in zip(kinds, enumerate(spec['layout']))]
             self.plan = Plan(faults=spec['faults'], boom=spec.get('boom'))
         else:
             self.rcpts = ['%sp%d@x%d.test' % (pre, i, i) for i in range(spec['n'])]
             self.plan = Plan(spec=spec['relay'], park=spec['parked'])
         self.offered = list(self.rcpts)
+        self.rcpt_kinds = spec.get('rcpt_kinds')
+        self.rcpt_codes = {}                   # address -> code of its RCPT reply (session transports)
         self.reject = spec.get('reject')
         if self.reject is not None:
             self.offered.insert(self.reject, 'nobody%d@reject.test' % idx)
@@ -660,6 +699,8 @@ class Lab(object):
         self.validators = None
         if case['transport'].startswith('smtp') and any(m.reject is not None for m in self.msgs):
             self.validators = RejectingValidators
+        if any(m.rcpt_kinds for m in self.msgs):
+            self.validators = RcptCodeValidators
         self.mark(0)
 
     # single-message views used by the single-message transports
@@ -771,6 +812,8 @@ def _judge(lab, snap, edgekind, out, code, ok2, msg, second, hits):
         hits.append('pipelined-eod-reply-judged')
     if msg.reject is not None:
         hits.append('rejected-rcpt-message-judged')
+    if msg.rcpt_kinds:
+        hits.append('rcpt-answered-other-2xx-judged')
     if code is not None and code[:1] not in '245':
         out['viol'].append(('unclassified/%s/final-answer-neither-2xx-nor-4xx-5xx' % edgekind,
                             'the final answer to the message was %r' % code))
@@ -809,7 +852,14 @@ def _judge(lab, snap, edgekind, out, code, ok2, msg, second, hits):
                                        ','.join(sorted(set(w['state'] for w in failed))),
                                        missing)))
             elif missing:
-                if boom:
+                other2xx = [r for r in missing if msg.rcpt_codes.get(r, '250') != '250']
+                if other2xx and len(other2xx) == len(missing):
+                    # two stages: next to a 250-recipient the transaction reaches DATA anyway; without one
+                    # it is the DATA gate that must not open for recipients the envelope does not hold
+                    some250 = any(c == '250' for c in msg.rcpt_codes.values())
+                    mech = edgekind + ('/recipient-answered-2xx-other-than-250-dropped-next-to-250-recipient'
+                                       if some250 else '/message-taken-although-no-recipient-is-in-the-envelope')
+                elif boom:
                     mech = edgekind + '/2xx-although-policy-raised-and-recipient-unwritten'
                 else:
                     mech = 'unclassified/%s/accepted-recipient-in-no-written-envelope' % edgekind
@@ -1400,11 +1450,14 @@ class SessionMonitor(object):
                 msg = self.lab.msgs[m]
                 addr = msg.offered[self.rcpt_seen[m]]
                 self.rcpt_seen[m] += 1
-                if code == '250':
+                msg.rcpt_codes[addr] = code
+                if code[:1] == '2':             # a recipient answered 2xx was accepted in the client's eyes
                     self.actual[m].append(addr)
             elif role == 'data':
                 self.lab.msgs[m].data_code = code
-                if code != '354':
+                if code != '354' and self.lab.msgs[m].rcpt_kinds and k + 1 < len(self.roles):
+                    del self.roles[k + 1]       # the harness does not send the content then
+                elif code != '354':
                     self.setup_bad = 'DATA of message %d not answered 354: %s' % (m + 1, code)
             elif role == 'eod':
                 msg = self.lab.msgs[m]
@@ -1429,6 +1482,9 @@ class SessionMonitor(object):
                 msg.accepted = list(self.actual[msg.idx])
                 judge(self.lab, self.lab.snapshot(None, 'session-end-without-reply', msg.idx), 'smtp-edge', self.out)
                 self.lab.mark(msg.idx + 1)
+            elif msg.rcpt_kinds and msg.data_code is not None:
+                # DATA refused: the message was not taken and nothing was acknowledged
+                self.out['hits'].append('data-refused-so-nothing-acknowledged')
             else:
                 self.out['inconc'].append('message %d of the session was never reached' % (msg.idx + 1))
 
@@ -1441,8 +1497,11 @@ def run_smtp_session_script(lab, out):
     def on_recv(ss):
         if ss.segments or st['i'] >= len(groups):
             return
-        ss.feed(b''.join(u[2] for u in groups[st['i']]))
+        group = groups[st['i']]
         st['i'] += 1
+        if group[0][0] == 'body' and lab.msgs[group[0][1]].data_code not in (None, '354'):
+            return on_recv(ss)              # DATA was refused: no content is sent
+        ss.feed(b''.join(u[2] for u in group))
 
     sock = ScriptSocket([], eof=True, on_recv=on_recv, on_send=lambda ss, data: mon.on_send(data), peer=ADDR)
     edge = SmtpEdge(None, lab.queue, hostname='edge.test', validator_class=lab.validators)
@@ -1478,6 +1537,8 @@ def run_smtp_session_socketpair(lab, out):
         for group in groups:
             if gone:
                 break
+            if group[0][0] == 'body' and lab.msgs[group[0][1]].data_code not in (None, '354'):
+                continue                    # DATA was refused: no content is sent
             try:
                 b.sendall(b''.join(u[2] for u in group))
             except OSError:
